@@ -163,8 +163,7 @@ Print Assumptions C07_cp_procs_thread.
        if the source evaluation at fuel f is not a failure, the transformed one at any fuel >= 4 f gives the same value /
        control flow in an equivalent state (sim = "ok r -> res_eq R r r'").
        PARTIAL: excluded by swap_safe (XFrontPreserve.v header): `>` / `<=` with two non-constant operands one of which
-       contains a call; a maximal constant sub-expression with ~=, >=, >, <= at its top; unary minus of a non-constant
-       operand; the call spelled 4294967295(..).  The procedure-table hypothesis is discharged for whole programs in
+       contains a call; the call spelled 4294967295(..).  The procedure-table hypothesis is discharged for whole programs in
        theorem 12 (program_PT). *)
 Theorem C07_front_simulation_partial : forall ge ge' : genv, g_vals ge' = g_vals ge ->
   (forall f q, find_proc f (g_procs ge) = Some q -> exists q' E, find_proc f (g_procs ge') = Some q' /\ proc_ok ge ge' q q' E) ->
@@ -189,10 +188,12 @@ Print Assumptions C07_front_globals_same.
        the output of XConstProp.front.
        PARTIAL, hypotheses (both decidable, computed by vm_compute in the Examples below):
          names_ok p          no procedure has the empty name (the parser cannot produce one);
-         front_swap_safe p   the annotated program is swap_safe (exclusions (1)-(4) in the header of XFrontPreserve.v:
-                             `>` / `<=` between two non-constant operands one of which contains a call; a maximal
-                             constant sub-expression with ~=, >=, >, <= at its top; unary minus of a non-constant
-                             operand; the call spelled 4294967295(..)).
+         front_swap_safe p   the annotated program is swap_safe (exclusions (1)-(2) in the header of XFrontPreserve.v:
+                             `>` / `<=` between two non-constant operands one of which contains a call; the call
+                             spelled 4294967295(..)).  Covered since: constant comparisons that OptimiseExpr rewrites
+                             after folding (3 ~= 4, k >= 2 with val k ...), and unary minus of a non-constant operand
+                             (-x -> 0 - x; by the framing lemma frame_all: an evaluation started with an extra footprint
+                             recorded only adds that footprint to its final state).
        Ill-defined source programs are outside the statement by `= Behaviour b` (XSem answers Undef for the
        relational-difference overflow of the known finding, for order-dependent operands, for wrap-around ...). *)
 Theorem C07_front_preserves_partial : forall p p' f steps depth inp b,
